@@ -719,6 +719,18 @@ def scope_exit_monitor(env, ctx, key, scope, body_exc, outer_exc):
     # ---- C05: outcome of the block ----
     own = body_exc is None or (isinstance(body_exc, CancelScope) and body_exc.subject is scope)
     failures = [end for end in info['ends'] if end[1] == 'failed']
+    if not info['until'] and not failures:
+        # a plain Scope is only ever aborted by the failure of one of its children
+        closed = [end[0] for end in info['ends'] if end[1] == 'closed'
+                  and (end[0], False) in info['children']]
+        if body_exc is not None and own:
+            sess.violation('c05:aborted-without-failure',
+                           'block %s: the body was aborted by the block\'s own signal although '
+                           'no child failed' % key)
+        elif normal and closed:
+            sess.violation('c05:aborted-without-failure',
+                           'block %s: non-volatile children %s were closed although neither '
+                           'body nor children failed' % (key, closed))
     content = []
     privileged = []
     for end in failures:
@@ -834,6 +846,8 @@ async def op_await_task(env, ctx, step):
     try:
         return await task
     except (TaskCancelled, TaskClosed) as exc:
+        if step.get('reraise'):
+            raise
         return exc_name(exc)
     except BaseException as exc:  # noqa: B902
         if env.is_own(exc) and step.get('catch'):
